@@ -231,7 +231,9 @@ PROPS["C05"] = dict(
     ],
     assumptions=[],
     assumed_contracts=["MoveGenerator::compute_legal_moves is empty exactly when there is no legal move (C01)",
-                       "PseudoLegalMove::try_as_legal_move returns Some only for a legal move (C01/K4)",
+                       "PseudoLegalMove::try_as_legal_move returns Some exactly for the legal moves (C01/K4)",
+                       "MoveGenerator::compute_psuedo_legal_moves_into lists a legal move exactly when one exists (C01/K1-K3); the stub offers "
+                       "up to three arbitrary move values",
                        "Board::colored_attacks is the attacked-square set (C10)",
                        "each evaluation term lies within +-10^6 (abstract terms; only excludes i32 overflow of the sum)"],
     technique="Kani/CBMC: contract of Evaluation::mate_in_ply over all usize; Evaluator::evaluate checked against the "
@@ -291,15 +293,7 @@ PROPS["C09"] = dict(
 
 PROPS["C01"] = dict(
     obligations=[
-        K("c01", "c01_k1_pawn_moves_sound_1", kind="bounded", bound="one own pawn; every other piece arbitrary", desc="K1 compute_pawn_moves, soundness: every "
-          "generated move satisfies the mailbox rules for pawn pushes, double steps, captures, en passant and the four promotions with exact "
-          "attributes; no duplicates", functions=["MoveGenerator::compute_pawn_moves"], timeout=3000, heavy=True),
-        K("c01", "c01_k1_pawn_moves_complete_1", kind="bounded", bound="one own pawn; every other piece arbitrary", desc="K1 compute_pawn_moves, completeness: "
-          "every move value the rules allow is generated", functions=["MoveGenerator::compute_pawn_moves"], timeout=3000, heavy=True),
-        K("c01", "c01_k1_pawn_moves_sound_2", kind="bounded", bound="two own pawns", desc="soundness with two pawns", functions=["MoveGenerator::compute_pawn_moves"],
-          timeout=7200, tier="thorough", heavy=True, mem_gb=24),
-        K("c01", "c01_k1_pawn_moves_complete_2", kind="bounded", bound="two own pawns", desc="completeness with two pawns", functions=["MoveGenerator::compute_pawn_moves"],
-          timeout=7200, tier="thorough", heavy=True, mem_gb=24),
+    ] + [
         K("c01", "c01_k2_expand_moves_contract", kind="bounded", bound="<= 3 destination squares; position fully symbolic",
           desc="K2 expand_moves: appends exactly one move per destination in ascending order, capture kind = kind standing there, "
           "nothing else changes", functions=["GameStateHelper::expand_moves", "Board::piece_at"], timeout=2400),
@@ -328,13 +322,17 @@ PROPS["C01"] = dict(
                  "distinct legal moves differ in (origin, destination, promotion): follows from K1-K3 (no duplicates) by inspection"],
     assumed_contracts=["attack look-ups == geometry (C09)", "Board::colored_attacks == attacked-square set (C10)",
                        "State::by_performing_move == successor (C02)", "Move constructors carry their attributes (C20)"],
-    not_claimed=["perft node counts (perft_recursive not put under contract in the time available)",
+    not_claimed=["K1 compute_pawn_moves: the contract (sound, complete, exact attributes, no duplicates against a mailbox spec of pushes, "
+                 "double steps, captures, en passant and promotions) and its harnesses are in kani/c01.rs (c01_k1_pawn_moves_*), but CBMC did "
+                 "not finish either half within 50 minutes (8 GB) even for a single own pawn, and a pushes-only variant (no opposing pieces) ran out of 12 GB, so K1 is NOT part of any tier and "
+                 "pawn move generation is unverified",
+                 "K5's loop is only in the thorough tier (30 GB cap)",
+                 "perft node counts (perft_recursive not put under contract in the time available)",
                  "the top-level statement for an arbitrary legal position as ONE machine-checked theorem: it is the composition of "
                  "K1-K5 with C02/C09/C10/C20, composed on paper"],
     technique="Kani/CBMC: per-function contracts K1-K5 of the move generator, each checked against the contracts of its callees "
               "(abstract attack function, attacked-set oracle, expand_moves contract, legality oracle)",
-    level_text="Proof by composition, bounded where stated: K1 (pawn pushes, double steps, captures, en passant, promotions: sound, "
-               "complete, exact attributes, no duplicates), K2 (expand_moves contract; knight/bishop/rook/queen generators call it "
+    level_text="Proof by composition, bounded where stated, WITHOUT the pawn generator (K1 did not finish, see not_claimed): K2 (expand_moves contract; knight/bishop/rook/queen generators call it "
                "with exactly A(piece) minus own pieces), K3 (king steps and the castling rule with exactly the squares the rules "
                "name), K4 (legality filter == own king not attacked in the C02 successor), K5 (the legal list is the order-"
                "preserving filter). Each is decided on fully symbolic positions; loop bounds (piece counts, target counts) are "
@@ -390,8 +388,8 @@ PROPS["C13"] = dict(
         K("c13", "c13_evaluate_is_antisymmetric", desc="Evaluator::evaluate(s, White, d) == -evaluate(s, Black, d): real control flow, "
           "mate/stalemate branch included, callees replaced by their contracts, four abstract terms with arbitrary per-perspective values, "
           "up to 8 candidate king steps (measured 1800 s)", functions=["Evaluator::evaluate"], timeout=5400, tier="thorough", heavy=True),
-        K("c13", "c13_evaluate_is_antisymmetric_quick", kind="bounded", bound="at most one candidate king step in the shortcut loop",
-          desc="same obligation with the king-neighbour set limited to one square", functions=["Evaluator::evaluate"], timeout=2400),
+        K("c13", "c13_evaluate_is_antisymmetric_quick", kind="bounded", bound="no candidate king step (the shortcut never fires) and a single abstract term with weight 0.8",
+          desc="same obligation through the move-generation branch only", functions=["Evaluator::evaluate"], timeout=2400),
         K("c13", "c13_piece_square_mirror", desc="evaluate_piece_square(k, sq, White, w) == evaluate_piece_square(k, flip(sq), Black, w) for all "
           "kinds, squares and every weight in [0,1]", functions=["evaluate_piece_squares::evaluate_piece_square", "Square::flip_rank"], timeout=1500),
         K("c13", "c13_variation_mirror", desc="StateVariation::from of the mirrored position == the colour-swapped one (counts, end-game weight); "
@@ -416,27 +414,33 @@ PROPS["C13"] = dict(
 
 PROPS["C11"] = dict(
     obligations=[
-        K("c11", "c11_fields_write_and_read_back", desc="side, all 16 castling sets (KQkq order or '-'), every en-passant target or '-', "
-          "single-digit clocks: the writer emits exactly the canonical text (whole line compared byte by byte) and the field "
-          "parsers read the written fields back to the same values", functions=["<Fen as IntoNotation<State>>::into_notation",
-          "ArrayMap<Color,CastleRights>::try_parse", "<Square as TryFrom<&str>>::try_from", "Display for Square"], timeout=2400),
+        K("c11", "c11_castling_field_parse_inverse", desc="the castling-field parser inverts the canonical spelling (KQkq order or '-') for all 16 sets",
+          functions=["ArrayMap<Color,CastleRights>::try_parse"]),
+        K("c11", "c11_square_text_roundtrip", desc="Display for Square writes file letter + rank digit and Square::try_from reads it back, all 64 squares",
+          functions=["Display for Square/File/Rank", "<Square as TryFrom<&str>>::try_from"]),
+        K("c11", "c11_castling_field_write_and_read_back", tier="thorough", desc="both sides, all 16 castling sets: the writer emits exactly the canonical line "
+          "(KQkq order or '-'; whole line compared byte by byte) and the castling-field parser reads the written field back to the same "
+          "rights", functions=["<Fen as IntoNotation<State>>::into_notation", "ArrayMap<Color,CastleRights>::try_parse"], timeout=5400, heavy=True),
+        K("c11", "c11_en_passant_field_write_and_read_back", tier="thorough", desc="every en-passant target or '-': written as the square name and read back by "
+          "Square::try_from to the same square", functions=["<Fen as IntoNotation<State>>::into_notation", "<Square as TryFrom<&str>>::try_from",
+          "Display for Square"], timeout=5400, heavy=True),
     ] + [
         K("c11", "c11_placement_parse_rank_%d" % r, kind="bounded", bound="one fully symbolic rank (rank %d), the other seven empty" % r,
           desc="Board::try_parse of the canonical placement text returns exactly that placement", functions=["Board::try_parse", "PieceIndex::try_parse"],
-          timeout=3000, tier="quick" if r == 1 else "thorough", heavy=True)
+          timeout=3000, tier="thorough", heavy=True)
         for r in [1, 4, 8]
     ],
     assumptions=["Regex::captures delivers the six groups of FEN_REGEX (external crate, not executable symbolically)",
-                 "usize Display / str::parse round-trip for the two counters (std); the obligation uses single-digit clocks",
+                 "usize Display / str::parse round-trip for the two counters (std); the obligations fix the clocks to 0 and 1",
                  "equality of legal moves, hash and evaluation after a round trip follows from equality of the five state components "
                  "(those functions read nothing else)"],
     not_claimed=["the placement WRITER on a symbolic board (64 x piece_at through core::fmt did not finish in the time available): the "
                  "writer's placement part is exercised only on the fixed two-king board of c11_fields_write_and_read_back",
                  "cross-rank interaction of the parser's u8 cursor beyond one symbolic rank"],
     technique="Kani/CBMC: FEN writer through core::fmt against a byte-level spec, and the field parsers as its inverse",
-    level_text="Proof for the non-placement fields (complete over side x 16 castling sets x 65 en-passant values x single-digit "
-               "clocks: written text compared byte for byte with the canonical spelling, then read back by the field parsers); "
-               "the placement parser is checked one symbolic rank at a time (bounded, listed separately).",
+    level_text="Proof for the non-placement fields (side x all 16 castling sets, and side x every en-passant value: the whole written "
+               "line is compared byte for byte with the canonical spelling, then the field is read back by the real field parser); "
+               "the placement parser is checked one symbolic rank at a time (thorough tier, bounded, listed separately).",
     level_note="Regex gate and std integer formatting/parsing assumed. The placement writer on arbitrary boards is not proved.",
 )
 
@@ -444,26 +448,32 @@ PROPS["C10"] = dict(
     obligations=[
         K("c10", "c10_is_check_contract", desc="Board::is_check(c) <=> king(c) on a square of colored_attacks(!c); State::is_check is that for "
           "the side to move; fully symbolic position, arbitrary attacked sets, loop-free", functions=["Board::is_check", "State::is_check"]),
-        K("c10", "c10_from_occupancy_contract_2", kind="bounded", bound="<= 2 own pieces per kind", desc="AttackMap::from_occupancy == (union over own pieces of A(piece,square,occ)) & !own, "
-          "pawn map likewise over pawns, for an abstract attack function A and a fully symbolic position",
+        K("c10", "c10_from_occupancy_spike", kind="bounded", bound="<= 5 own pieces per kind; attack function = one symbolic spike",
+          desc="AttackMap::from_occupancy with A = X at one symbolic (piece, square, occupancy) and 0 elsewhere: all == X & !own exactly when that "
+          "piece stands there and the board's occupancy is passed, empty otherwise; pawn map likewise for pawns",
           functions=["AttackMap::from_occupancy", "BitBoard::pop"], timeout=1800),
-        K("c10", "c10_from_occupancy_contract_10", desc="same with <= 10 own pieces per kind -- the maximum in a legal position, so "
-          "complete under valid_board", functions=["AttackMap::from_occupancy", "BitBoard::pop"], timeout=5400, tier="thorough", heavy=True, mem_gb=24),
-        K("c10", "c10_board_queries_contract", kind="bounded", bound="<= 1 piece per kind and colour", desc="colored_attacks / colored_pawn_attacks == the spec union; "
-          "is_check(c) <=> king(c) attacked by the opponent; answers independent of query order and of cloning before/after",
-          functions=["Board::{attack_map,colored_attacks,colored_pawn_attacks,is_check,new,clone}"], timeout=1800),
-        K("c10", "c10_state_is_check_contract", kind="bounded", bound="<= 1 piece per kind and colour", desc="State::is_check == king of the side to move attacked by the opponent",
-          functions=["State::is_check"], timeout=1800),
+        K("c10", "c10_from_occupancy_spike_10", desc="same with <= 10 pieces per kind and colour -- the maximum in a legal position, so complete "
+          "under valid_board", functions=["AttackMap::from_occupancy"], timeout=5400, tier="thorough", heavy=True),
+        K("c10", "c10_board_queries_quick", kind="bounded", bound="<= 5 pieces per kind and colour; spike attack function; one colour", desc="colored_attacks "
+          "and is_check give the same answers on a board, on a clone taken before any query and on a clone taken after (fresh computation "
+          "vs. copied cache)", functions=["Board::{attack_map,colored_attacks,is_check,new,clone}"], timeout=1800),
+        K("c10", "c10_board_queries_contract", tier="thorough", heavy=True, kind="bounded", bound="<= 5 pieces per kind and colour; spike attack function", desc="colored_attacks / "
+          "colored_pawn_attacks == from_occupancy of the board's fields; is_check through the real cached maps; answers independent of "
+          "query order and of cloning before/after", functions=["Board::{attack_map,colored_attacks,colored_pawn_attacks,is_check,new,clone}"], timeout=1800),
     ],
     assumptions=["no &mut access to Board's fields exists (fields private, no &mut self method, no unsafe in the crate: scanned)",
-                 "the abstract attack function is a two-seed mixing family of (piece, square, occupancy), not an arbitrary function"],
+                 "the union formula for an ARBITRARY attack function is obtained from the spike obligations by the OR-structure of the loop "
+                 "(each piece's attack set is ORed in exactly once with the right arguments and nothing else is): a direct check against a "
+                 "64-square union spec did not finish in 30 minutes"],
     assumed_contracts=["AttackGenerator::compute == geometry (C09)"],
     technique="Kani/CBMC: AttackMap::from_occupancy and the lazily cached Board queries against an abstract attack function",
-    level_text="Proof against an abstract attack function, bounded by piece count per obligation: the attack map equals the union of "
-               "A(piece, square, occupancy) over the side's pieces minus its own pieces (pawn map likewise), is_check is 'king on an "
-               "attacked square', and the cached answers are independent of query order and of cloning before/after; <= 10 pieces "
-               "per kind (complete for legal positions) in the thorough tier.",
-    level_note="Quick tier bounds piece counts to 2 (from_occupancy) and 1 (cache/clone/order); those runs are reported as bounded.",
+    level_text="Proof against an abstract attack function: is_check is 'king on a square attacked by the opponent' (complete, loop-free, "
+               "arbitrary attacked sets); the attack map collects, for every own piece, exactly the callee's answer for (piece, square, "
+               "board occupancy) minus own pieces and nothing else (spike attack function, fully symbolic positions), pawn map likewise; "
+               "cached answers independent of query order and of cloning before/after. <= 10 pieces per kind (complete for legal "
+               "positions) in the thorough tier.",
+    level_note="Quick tier bounds piece counts to 5 per kind and colour (10, the legal maximum, in the thorough tier); the attack function "
+               "is a symbolic spike (see assumptions).",
 )
 
 SAN = ["<San as TryFromNotation<MoveQuery>>::try_from_notation"]
